@@ -11,6 +11,12 @@ for a in sys.argv[4:]:
 skip = '--skip-confirm' in sys.argv
 def sh(cmd, **k): return subprocess.run(cmd, shell=True, capture_output=True, text=True, **k)
 meta = {'id': sid, 'property': prop, 'ran': []}
+_old = os.path.join(ROOT, 'seeded', sid, 'meta.json')
+if os.path.exists(_old):
+    o = json.load(open(_old))
+    for k in ('demo_without_change_exit', 'tests_with_change', 'demo_with_change_exit', 'demo_output', 'confirmed'):
+        if k in o: meta[k] = o[k]
+    meta['history'] = o.get('history', []) + [{'detected': o.get('detected'), 'ran': o.get('ran')}]
 patch = os.path.join(src, 'patch.diff'); demo = os.path.join(src, 'demo.py')
 if not skip:
     wt = tempfile.mkdtemp(prefix='gvc-wt-'); os.rmdir(wt)
